@@ -24,7 +24,8 @@ PLANS = {
             S("c02_stream", 400, 15000),
             S("c05_conc", 700, 10000, label="aiomon"),
             S("c02_reuse", 500, 15000),   # one aio reused across operation kinds: nothing leaks from one use to the next
-            S("c02_many", 300, 6000),     # up to 260 deadlines in the same instant: none forgotten, none early
+            S("c02_many", 300, 6000),
+            S("c10_device", 400, 12000, label="device"),  # nng_device_aio must complete after cancel/timeout also while traffic flows     # up to 260 deadlines in the same instant: none forgotten, none early
         ],
         "assumptions": ["internal aios are observed through link-time wrapping of nni_task_*/nni_aio_* (sim/aiomon.c); the monitor self-reports its event counts in stats"],
     },
@@ -374,6 +375,7 @@ PLANS = {
             # unrestricted workload: the known findings are re-observed here
             S("c03_api", 300, 9000),
             S("c03_msg", 400, 12000),
+            S("c03_subctx", 400, 12000),   # SUB contexts with subscriptions opened and closed under published traffic (scenarios/c03b_subctx.cc)
             # savoid 4 = no nng_stream_free with operations pending, 8/64 = no connect right after a cancelled connect
             # (http client / ws stream dialer), 16 = wait for the http server teardown before nng_fini,
             # 32 = no handler removal during a transaction
